@@ -18,12 +18,25 @@ GEN = PKG + '.generator'
 def walkers(prog):
     cr = prog.func(ENF + '.check_rules')
     out = []
-    for call, g in prog.callees(cr):
-        if isinstance(call, ast.Call) and g.cls is not None and \
-                g.cls.qual == ENF and any(
-                    isinstance(c, ast.Call) and prog.callee_of(g, c) is g
-                    for c in ast.walk(g.node)) and g not in out:
-            out.append(g)
+    # direct callees, and those of the Enforcer helpers check_rules
+    # delegates the collecting to
+    seen = set()
+    todo = [cr]
+    while todo:
+        f = todo.pop(0)
+        if f.qual in seen:
+            continue
+        seen.add(f.qual)
+        for call, g in prog.callees(f):
+            if not isinstance(call, ast.Call) or g.cls is None or \
+                    g.cls.qual != ENF:
+                continue
+            if any(isinstance(c, ast.Call) and prog.callee_of(g, c) is g
+                   for c in ast.walk(g.node)):
+                if g not in out:
+                    out.append(g)
+            elif g.name not in ('load_rules', 'enforce', '__init__'):
+                todo.append(g)
     return cr, out
 
 
@@ -417,6 +430,14 @@ def check_aggregate(ctx, cr, ws):
     cyc = [w for w in ws if len(w.params) > 2]
     bad = None
     n = 0
+    if not any(c.kind == 'test' and isinstance(t.expand(c.expr), ast.Call)
+               and prog.callee_of(cr, t.expand(c.expr)) in ws
+               for p in t.paths for c in p.conds):
+        raise AnalysisError(
+            'no path of %s tests what a validation walker answered: how the '
+            'walkers\' answers reach the verdict (collected in lists, '
+            'filtered in comprehensions) is not one of the shapes this '
+            'analysis reads' % cr.qual)
     for p in t.paths:
         hit = False
         skipped = any(c.kind == 'test' and c.pol and U(c.expr) ==
